@@ -20,7 +20,7 @@ use std::sync::Arc;
 use std::time::{Duration, Instant};
 
 #[derive(Clone, Debug, PartialEq)]
-pub enum Failure { None, Logp { chain: u64, eval: u64 }, MathCtor { chain: u64 }, Init { chain: u64 }, Storage { chain: u64, record: u64 }, RecoverableOnly { chain: u64, period: u64 } }
+pub enum Failure { None, Logp { chain: u64, eval: u64 }, MathCtor { chain: u64 }, Init { chain: u64 }, Storage { chain: u64, record: u64 }, RecoverableOnly { chain: u64, period: u64 }, InitRecoverable { chain: u64, n: u64 } }
 
 #[derive(Clone)]
 pub struct TModel { pub dim: usize, pub seed: u64, pub failure: Failure, pub slow_chain: Option<u64> }
@@ -49,6 +49,8 @@ impl Model for TModel {
                 Failure::MathCtor { chain: fc } if *fc == c => anyhow::bail!("injected model construction failure in chain {c}"),
                 Failure::Logp { chain: fc, eval } if *fc == c => { t = t.with_faults(vec![(*eval, FaultKind::Unrecoverable)]); *FAULT_EVALS.lock().unwrap() = Some(t.evals.clone()); }
                 Failure::Init { chain: fc } if *fc == c => t.periodic = Some((1, FaultKind::Unrecoverable)),
+                // the first `n` density evaluations of the chain fail recoverably: the first initial points are rejected, a later one is fine
+                Failure::InitRecoverable { chain: fc, n } if *fc == c || *fc == u64::MAX => t = t.with_faults((0..*n).map(|k| (k, FaultKind::Recoverable)).collect()),
                 Failure::RecoverableOnly { chain: fc, period } if *fc == c || *fc == u64::MAX => t.periodic = Some((*period, FaultKind::Recoverable)),
                 _ => {}
             }
@@ -270,7 +272,8 @@ pub fn gen_cfg(seed: u64, case: u64, tier: &str, mode: u8) -> Cfg {
     let total = num_tune + num_draws;
     let failure = if mode == 3 {
         let chain = r.below(num_chains as u64);
-        match case % 5 {
+        match case % 6 {
+            5 => Failure::InitRecoverable { chain: if r.coin() { chain } else { u64::MAX }, n: 1 + r.below(6) },
             0 => Failure::Logp { chain, eval: r.below(40 + 8 * total) },
             1 => Failure::MathCtor { chain },
             2 => Failure::Init { chain },
